@@ -174,6 +174,7 @@ func runPeerSessionWith(sim *core.Sim, pp PeerPlan, opts peerOpts) *peerRun {
 		})
 	}
 	gl := lib.exchange(sim, s, pipe.WithCaps(link.A, pp.Link.CapsA), link.A, pr.res)
+	sim.Pause()
 	gp := core.Go(func() {
 		if opts.remote != nil {
 			opts.remote(link.B)
